@@ -703,6 +703,13 @@ pub fn build(rc: &Recipe, mk: &dyn Fn(usize, i64) -> Address) -> (write::Dwarf, 
             if let Some((ou, oe)) = first_entries.first() {
                 unit.get_mut(c).set(gimli::DW_AT_abstract_origin, AttributeValue::DebugInfoRef(DebugInfoRef::Entry(*ou, *oe)));
             }
+            if i % 3 == 1 {
+                // plain data that looks like an offset: a reference into the *supplementary* file's
+                // .debug_info (DW_FORM_ref_sup4/8) is not an offset into any section written here, so it
+                // must not be recorded as a relocation (the reader reads it as plain data)
+                unit.get_mut(c).set(gimli::DW_AT_import, AttributeValue::DebugInfoRefSup(gimli::DebugInfoOffset(0x1234 + 16 * i as usize)));
+                unit.get_mut(c).set(gimli::DW_AT_byte_size, AttributeValue::Data4(0x4000 + i as u32));
+            }
             if i == 0 {
                 first_entries.push((uid, c));
             }
